@@ -1,10 +1,11 @@
-"""C16 — field-map tokeniser (source level on structured texts) and sequential consumption (bounded Kani kernels)."""
+"""C16 — field-map tokeniser and consumption tracker (source level) and tag helpers (bounded Kani kernels)."""
 import e1
 import e2misc
 
 
 def run(tier, seed, ev, jobs):
     rc = e2misc.run_tokeniser("C16", ev)
+    rc = e1.combine(rc, e2misc.run_tracker("C16", ev))
     ev.outside.append("split_into_sequences / parse_repetitive_sequence; texts longer than the stated sizes; find_field_with_variant_sequential_constrained")
     return e1.combine(rc, e1.run_e1("C16", tier, seed, ev, jobs))
 
